@@ -90,6 +90,8 @@ func (c *c12Case) payload() []byte {
 				fmt.Fprintf(&b, "long_metric{v=\"%s\"} 1", strings.Repeat("x", g.Arg))
 			case "utf8":
 				fmt.Fprintf(&b, "metric_u{v=\"世界-ü-%d-\xf0\x9f\x98\x80\"} 2", ln)
+			case "eof":
+				b.WriteString("# EOF") // the terminator of an OpenMetrics exposition
 			}
 			b.WriteString(c.EOL)
 			ln++
@@ -429,7 +431,11 @@ func genC12(t *rapid.T) *c12Case {
 		}
 	}
 	c.Assigned = rapid.IntRange(0, 3).Draw(t, "assigned") != 0
-	c.CType = rapid.SampledFrom([]string{"text/plain; version=0.0.4; charset=utf-8", "application/openmetrics-text; version=0.0.1; charset=utf-8", "text/plain", ""}).Draw(t, "ctype")
+	c.CType = rapid.SampledFrom([]string{"text/plain; version=0.0.4; charset=utf-8", "application/openmetrics-text; version=0.0.1; charset=utf-8", "application/openmetrics-text; version=1.0.0; charset=utf-8", "text/plain", ""}).Draw(t, "ctype")
+	if strings.HasPrefix(c.CType, "application/openmetrics-text") {
+		// an OpenMetrics exposition ends with its terminator line
+		c.Groups = append(c.Groups, lineGroup{Kind: "eof", Count: 1})
+	}
 	c.Timeout = rapid.SampledFrom([]string{"", "", "900ms", "1500ms", "1s", "14s"}).Draw(t, "timeout")
 	c.Limits = rapid.IntRange(0, 2).Draw(t, "limits") == 0
 	c.AcceptEncoding = rapid.SampledFrom([]string{"", "", "", "deflate, gzip, br, zstd", "none", "identity", "gzip;q=1.0, deflate;q=0.5"}).Draw(t, "acceptEncoding")
